@@ -4,9 +4,11 @@ Same two streams and the same generators as C02 (`harness/props/c02.py` hosts th
 machinery); this module observes `P_after − P_before`, `S_after`, `U_after` (and VOGP_AD's
 gate/latch) of the REAL `pareto_updating()` / `useful_updating()` / `epsiloncovering()` against the
 Lean model (driver_c03), and — for Auer — the two-stage P1/P2 rule evaluated with every design's
-own width row (`auer`, `around`) next to the literal positional mirror of the code (`auerpos`,
-`aroundpos`).  A disagreement with the own-width rule that the positional mirror reproduces is
-reported as the genuine defect `auer-width-by-position` (DESIGN §5 D2).
+own width row (`auer`, `around`).  The literal positional mirror of the ORIGINAL code (`auerpos`,
+`aroundpos`: `beta_t[pt_i]` re-read by position after discarding shrank S) is kept for
+localisation only: a disagreement with the own-width rule that the positional mirror reproduces is
+reported as `auer-width-by-position` (DESIGN §5 D2 — reproduced on the original tree, since
+repaired in /repo; corpus/C03/d2-*.json are its regression cases).
 """
 from harness.props import c02 as base
 
